@@ -18,7 +18,7 @@ namespace etl {
 /// https://en.cppreference.com/w/cpp/string/wide/wmemcmp
 constexpr auto wmemcmp(wchar_t const* lhs, wchar_t const* rhs, etl::size_t count) noexcept -> int
 {
-    return etl::detail::strncmp<wchar_t, etl::size_t>(lhs, rhs, count);
+    return etl::detail::memcmp<wchar_t, etl::size_t>(lhs, rhs, count);
 }
 } // namespace etl
 
